@@ -82,6 +82,8 @@ impl Environment {
 
     /// Insert or update a binding in the local scope
     pub fn insert(&self, key: String, value: Value) {
+        #[cfg(feature = "verif-hooks")]
+        verif_hooks::record_insert(self.parent.is_none(), &key, self.contains_key_local(&key));
         match &self.local {
             LocalBindings::Owned(map) => {
                 map.borrow_mut().insert(key, value);
@@ -172,5 +174,38 @@ impl Environment {
     /// Useful for completion
     pub fn keys(&self) -> impl Iterator<Item = String> {
         self.flatten().into_keys()
+    }
+}
+
+/// Verification hook (cargo feature `verif-hooks`, off by default): a thread-local log of
+/// every `Environment::insert`, used by the external /verif harness as a runtime monitor for
+/// "a root environment never overwrites a key it already holds".
+#[cfg(feature = "verif-hooks")]
+pub mod verif_hooks {
+    use std::cell::RefCell;
+
+    /// (environment has no parent, key, key was already present locally)
+    pub type InsertEvent = (bool, String, bool);
+
+    thread_local! {
+        static LOG: RefCell<Option<Vec<InsertEvent>>> = const { RefCell::new(None) };
+    }
+
+    /// Start (or restart) logging on this thread.
+    pub fn arm() {
+        LOG.with(|l| *l.borrow_mut() = Some(Vec::new()));
+    }
+
+    /// Stop logging and return what was logged since `arm`.
+    pub fn take() -> Vec<InsertEvent> {
+        LOG.with(|l| l.borrow_mut().take().unwrap_or_default())
+    }
+
+    pub(super) fn record_insert(is_root: bool, key: &str, already_present: bool) {
+        LOG.with(|l| {
+            if let Some(log) = l.borrow_mut().as_mut() {
+                log.push((is_root, key.to_string(), already_present));
+            }
+        });
     }
 }
